@@ -2765,8 +2765,10 @@ pub fn freeze(env: &mut FreezeEnv, expr: &LocExpr) -> NRes<LocExpr> {
                         .iter()
                         .map(|x| match x {
                             ForIteration::Iteration(ty, lv, expr) => {
+                                // the iteratee is evaluated before this clause's names exist, so
+                                // freeze it first: a same-named variable in it is the outer one
+                                let frozen_expr = box_freeze(&mut env2, expr)?;
                                 // have to bind first so box_freeze_lvalue works
-                                // also recursive functions work ig
                                 env2.bind(lv.collect_identifiers(
                                     match ty {
                                         ForIterationType::Normal => false,
@@ -2777,7 +2779,7 @@ pub fn freeze(env: &mut FreezeEnv, expr: &LocExpr) -> NRes<LocExpr> {
                                 Ok(ForIteration::Iteration(
                                     *ty,
                                     box_freeze_lvalue(&mut env2, lv)?,
-                                    box_freeze(&mut env2, expr)?,
+                                    frozen_expr,
                                 ))
                             }
                             ForIteration::Guard(expr) => {
